@@ -632,6 +632,15 @@ void MEDDLY::forest::createReducedNode(unpacked_node *un, edge_value &ev,
     out << " in forest " << FID() << "\n";
 #endif
     //
+    // check is the node is written in order,
+    // if not rearrange it in ascending order of indices.
+    // Do this first: normalization may depend on the order.
+    //
+    if (un->isSparse()) {
+        un->sort();
+    }
+
+    //
     //
     // Normalize the node and count nonzeroes.
     //
@@ -759,13 +768,6 @@ void MEDDLY::forest::createReducedNode(unpacked_node *un, edge_value &ev,
         return;
     }
 
-    //
-    // check is the node is written in order,
-    // if not rearrange it in ascending order of indices.
-    //
-    if (un->isSparse()) {
-        un->sort();
-    }
 #ifdef DEVELOPMENT_CODE
     validateDownPointers(*un);
 #endif
